@@ -287,6 +287,10 @@ func observe(store *httpd.Store, o *obs) {
 	o.Params = map[string]string{}
 	for _, n := range allNames {
 		o.Params[n] = strings.Clone(store.RouteParam(n))
+		// the found flag of the lookup is part of its result
+		if v, ok := store.P.Get(n); ok {
+			o.Params[n+" (found)"] = strings.Clone(v)
+		}
 	}
 	o.Any = strings.Clone(store.RouteParamAny())
 }
@@ -348,8 +352,22 @@ func (w *world) serve(mux *httpd.Mux, r *request) {
 			r.escaped = fmt.Sprint(p)
 		}
 	}()
+	if r.id%3 == 1 {
+		// a plainer connection: it can be flushed, but has no FlushError,
+		// ReadFrom or WriteString of its own
+		mux.ServeHTTP(plainResponse{r.resp}, httpReq(r))
+		return
+	}
 	mux.ServeHTTP(r.resp, httpReq(r))
 }
+
+// plainResponse exposes only the core of simResponse plus Flush.
+type plainResponse struct{ r *simResponse }
+
+func (p plainResponse) Header() http.Header         { return p.r.Header() }
+func (p plainResponse) WriteHeader(code int)        { p.r.WriteHeader(code) }
+func (p plainResponse) Write(b []byte) (int, error) { return p.r.Write(b) }
+func (p plainResponse) Flush()                      { p.r.Flush() }
 
 func (w *world) genPath() (string, string) {
 	ch := simrt.Choose
